@@ -79,6 +79,19 @@ def program_m1(variant, cfg, erased=False, after=False):
             "    #[diplomat::opaque]\n    pub struct Uuu(u8);\n    impl Uuu {\n        pub fn u_one(&self) -> u8 { 1 }\n    }\n}\n")
 
 
+def program_t(cfg, erased=False, after=False):
+    """a whole TYPE disabled under cfg: an opaque with a render terminus and a hand-written demo function file
+    (#[diplomat::demo(custom_func = ..)], copied and imported by demo_gen) -- or not written at all (erased)"""
+    attr = ("    #[diplomat::attr(%s, disable)]\n" % cfg) if cfg is not None else ""
+    demo = '    #[diplomat::demo(custom_func = "custom_cus.mjs")]\n'
+    t = "" if erased else ((demo + attr if after else attr + demo) + "    #[diplomat::opaque]\n    pub struct Cus(u8);\n"
+                           "    impl Cus {\n        #[diplomat::demo(default_constructor)]\n        pub fn mk() -> Box<Cus> { Box::new(Cus(0)) }\n"
+                           "        pub fn show(&self, w: &mut DiplomatWrite) {}\n    }\n")
+    return ("#[diplomat::bridge]\nmod ffi {\n    use diplomat_runtime::DiplomatWrite;\n" + TDECL["opaque"] +
+            "    impl Tee {\n        #[diplomat::demo(default_constructor)]\n        pub fn mk() -> Box<Tee> { Box::new(Tee(0)) }\n"
+            "        pub fn m_two(&self) -> u8 { 2 }\n        pub fn show_tee(&self, w: &mut DiplomatWrite) {}\n    }\n" + t + "}\n")
+
+
 def no_trace(rep, tier, cases):
     """Remaining(pl, holds) of Attrs.tla: on a backend where the condition holds, a disabled method leaves no trace -- the output is
     byte-identical to that of the program in which the method was never written; where it does not hold, identical to the
@@ -91,14 +104,19 @@ def no_trace(rep, tier, cases):
     sigs = sorted(by_sig)
     rng.shuffle(sigs)
     n = 0
-    for variant in SPECIAL_M1:
-        erased = gen_all(wd, "erased", program_m1(variant, None, erased=True))
-        plain = gen_all(wd, "plain", program_m1(variant, None))
+    open(os.path.join(wd, "custom_cus.mjs"), "w").write("export default { 'Cus.custom': { func: () => 'x', funcName: 'Cus.custom', parameters: [] } };\n")
+    for variant in list(SPECIAL_M1) + ["type_custom_func"]:
+        prog = (lambda cfg, erased=False, after=False, _v=variant: program_m1(_v, cfg, erased=erased, after=after)) if variant in SPECIAL_M1 else program_t
+        erased = gen_all(wd, "erased", prog(None, erased=True))
+        plain = gen_all(wd, "plain", prog(None))
+        if variant == "type_custom_func" and any(plain[b]["rc"] != 0 for b in lib.BACKENDS):
+            raise lib.ToolError("no-trace leg: the type_custom_func program is refused by %s (the leg would compare nothing): %s" % (
+                [b for b in lib.BACKENDS if plain[b]["rc"] != 0], [plain[b]["stderr"][-200:] for b in lib.BACKENDS if plain[b]["rc"] != 0]))
         forms = [{"txt": "*", "sat": {b: True for b in lib.BACKENDS}}] + \
                 [{"txt": ftext(c["form"]), "sat": c["sat"]} for c in (rng.choice(by_sig[sg]) for sg in sigs[:(2 if tier == "quick" else 10)])]
-        orders = [False, True] if SPECIAL_M1[variant].lstrip().startswith("#[diplomat::attr(auto") else [False]
+        orders = [False, True] if (variant not in SPECIAL_M1 or SPECIAL_M1[variant].lstrip().startswith("#[diplomat::attr(auto")) else [False]
         for f, after in [(f, o) for f in forms for o in orders]:
-            got = gen_all(wd, "dis", program_m1(variant, f["txt"], after=after))
+            got = gen_all(wd, "dis", prog(f["txt"], after=after))
             n += 1
             for b in lib.BACKENDS:
                 exp = erased[b] if f["sat"][b] else plain[b]
@@ -119,7 +137,7 @@ def no_trace(rep, tier, cases):
                     rep.violation({"leg": "no-trace", "variant": variant, "backend": b, "holds": f["sat"][b], "after_auto_marker": after,
                                    "what": "a disabled method leaves a trace" if f["sat"][b] else "output differs from the attribute-free program"},
                                   {"formula": f["txt"], "differing_files": sorted(diff)[:10], "stderr": got[b]["stderr"],
-                                   "program": program_m1(variant, f["txt"], after=after)})
+                                   "program": prog(f["txt"], after=after)})
             rep.nontriv("no-trace:%s:%s" % (variant, f["txt"]))
     rep.evaluations += n * len(lib.BACKENDS)
     rep.traces += n
